@@ -333,7 +333,7 @@ func c17(c *Ctx) {
 			missB, hitB := found.EdgeWhen(false).To(), found.EdgeWhen(true).To()
 			errOK := false
 			for _, in := range missB.Instrs {
-				if ret, ok := an.AsReturn(in); ok && len(ret.Results) == 1 && !an.MayBeNilConst(an.RetVal(ret, 0)) {
+				if ret, ok := an.AsReturn(in); ok && len(ret.Results) == 1 && !an.MayReturnNil(ret, 0) {
 					errOK = true
 				}
 			}
